@@ -4,15 +4,15 @@
     /venv/bin/python translator/pymembers.py <repo>  > lean/DsdVerif/Gen/PyMembers.lean
 
 Translated, STATEMENT BY STATEMENT from the working tree: the properties `name`, `length`, `dtype`, `is_complement`, `cname`, `complement`
-and the methods `__invert__`, `__len__` of `DomainS`; plus `py_DomainS_truth` (`bool(d)`), see below.  An extension of
+and the methods `__invert__`, `__len__` of `DomainS`; plus `py_DomainSM_truth` (`bool(d)`), see below.  An extension of
 translator/pymethod.py (`MembersTx(MethodTx)`): same rules, same refusal policy (`Shape`; a refused member becomes a raising stub of the right
 type and is reported under `untranslated`); nothing about what the members are supposed to compute is known here.
 
 Reading of Python ADDED here (the trusted part; primitives of Model/PyPreludeKernel.lean, no new prelude):
 
-  object      `DomainS.Self` = the attributes `_name : String` (a str kept opaque) and `_length : Nat` (a non-negative int: what
+  object      `DomainSM.Self` = the attributes `_name : String` (a str kept opaque) and `_length : Nat` (a non-negative int: what
               `identifiers` hands to `__init__` for every object that exists; `None` lengths never reach a registered object).  A member is
-              a computation in `DomainS.M = Py.MS DomainS.Self`.  `self.m` for a member translated before is `(← py_DomainS_m …)`.
+              a computation in `DomainSM.M = Py.MS DomainSM.Self`.  `self.m` for a member translated before is `(← py_DomainSM_m …)`.
   s[-1]       on a str: `(← Py.strLast s) : Char` (IndexError for the empty str); `s[:-1]`: `Py.strDropLast s`; `s + t` on strs: `s ++ t`;
               `c == '*'` compares one-character strs
   self.__class__.X   a class attribute listed in the stub (`DTYPE_CUTOFF`) is a PARAMETER `cls_X : Nat` of the member (and of the members
@@ -20,7 +20,7 @@ Reading of Python ADDED here (the trusted part; primitives of Model/PyPreludeKer
   self.__class__(a, b)   the request for an object of the class (Singleton metaclass: `identifiers`, registries, `__init__`) is a PARAMETER
               `request : String → Nat → Py.M Nat` (the object is an opaque id); outside this translation what it does
   bool(d)     `DomainS` defines `__len__` and NO `__bool__` (CHECKED on the class body; `object` has none): Python's truth value of a domain
-              is `d.__len__() != 0`.  `py_DomainS_truth` is emitted as exactly that, over the translated `__len__`.
+              is `d.__len__() != 0`.  `py_DomainSM_truth` is emitted as exactly that, over the translated `__len__`.
 """
 import ast, os, sys
 sys.path.insert(0, os.path.dirname(os.path.abspath(__file__)))
@@ -44,7 +44,7 @@ MEMBERS = [
 
 
 class MembersTx(MethodTx):
-    M = 'DomainS.M'
+    M = 'DomainSM.M'
 
     def __init__(self, spec, fn, methods):
         extra = list(spec.get('extra', ()))
@@ -63,7 +63,7 @@ class MembersTx(MethodTx):
         for q in extras:
             if q not in self.params:
                 raise Shape('%s: self.%s needs the parameter %s' % (self.name, name, q))
-        return '(← py_DomainS_%s%s)' % (m['lean'], ''.join(' ' + q for q in extras)), m['ret']
+        return '(← py_DomainSM_%s%s)' % (m['lean'], ''.join(' ' + q for q in extras)), m['ret']
 
     def ex(self, node, expect=None):
         if isinstance(node, ast.Attribute) and isinstance(node.value, ast.Attribute) and is_self(node.value.value) \
@@ -116,11 +116,11 @@ def gen_pymembers(repo):
     cls = find_class(tree, 'DomainS')
     check_class(cls)
     out.append('/-- the part of a `DomainS` object that the translated members read -/')
-    out.append('structure DomainS.Self where\n' + '\n'.join('  %s : %s' % (a, ty(t)) for a, t in ATTRS_D) + '\nderiving Repr, DecidableEq\n')
-    out.append('abbrev DomainS.M := Py.MS DomainS.Self\n')
+    out.append('structure DomainSM.Self where\n' + '\n'.join('  %s : %s' % (a, ty(t)) for a, t in ATTRS_D) + '\nderiving Repr, DecidableEq\n')
+    out.append('abbrev DomainSM.M := Py.MS DomainSM.Self\n')
     methods, summary, untranslated = {}, {}, {}
     for spec in MEMBERS:
-        full = 'DomainS_' + spec['lean']
+        full = 'DomainSM_' + spec['lean']
         sig = ' '.join('(%s : %s)' % (ident(q), ty(t)) for q, t in list(spec.get('extra', ())) + spec['params'])
         fn, tx = None, None
         try:
@@ -139,7 +139,7 @@ def gen_pymembers(repo):
         except Shape as e:
             untranslated[full] = str(e)
             text = ('/-- `%s` (%s) could NOT be translated: %s -/\n' % (full, PATH, str(e).replace('-/', '- /')) +
-                    'def py_%s %s : DomainS.M (%s) := throw (Err.fault "untranslated")\n' % (full, sig, ty(spec['ret'])))
+                    'def py_%s %s : DomainSM.M (%s) := throw (Err.fault "untranslated")\n' % (full, sig, ty(spec['ret'])))
         out.append(text)
         methods[spec['method']] = dict(spec, lean=spec['lean'])
         summary[full] = {'statements': (sum(1 for _ in ast.walk(fn) if isinstance(_, ast.stmt)) - 1) if fn else 0, 'loops': 0,
@@ -149,11 +149,11 @@ def gen_pymembers(repo):
     bound = {t.id for n in cls.body if isinstance(n, ast.Assign) for t in n.targets if isinstance(t, ast.Name)}
     if defs.count('__len__') == 1 and '__bool__' not in defs and '__bool__' not in bound and not cls.bases:
         out.append('/-- `bool(d)` for a `DomainS` object: the class defines `__len__` and no `__bool__` (checked), so it is `d.__len__() != 0` -/\n'
-                   'def py_DomainS_truth : DomainS.M (Bool) := do\n  return (decide ((← py_DomainS_len) ≠ 0))\n')
+                   'def py_DomainSM_truth : DomainSM.M (Bool) := do\n  return (decide ((← py_DomainSM_len) ≠ 0))\n')
     else:
-        untranslated['DomainS_truth'] = 'DomainS no longer takes its truth value from __len__ alone'
+        untranslated['DomainSM_truth'] = 'DomainS no longer takes its truth value from __len__ alone'
         out.append('/-- `bool(d)`: could NOT be read: the class defines `__bool__`, has bases, or has no single `__len__` -/\n'
-                   'def py_DomainS_truth : DomainS.M (Bool) := throw (Err.fault "untranslated")\n')
+                   'def py_DomainSM_truth : DomainSM.M (Bool) := throw (Err.fault "untranslated")\n')
     out.append('end Dsd.Gen')
     if untranslated:
         summary['untranslated'] = untranslated
